@@ -86,8 +86,8 @@ Print Assumptions C19_valid_ids_are_plain_names.
 (* the server state only ever holds valid ids, for ALL cache sizes and ALL request sequences (jobs run to the end,
    jobs started and left running, releases) *)
 Theorem C19_server_ids_valid :
-  forall c ops, Forall (fun x => srv_ok (snd x)) (do_ops (server0 c) 1 ops).
-Proof. intros c ops. apply do_ops_ok. apply server0_ok. Qed.
+  forall ok c ops, Forall (fun x => srv_ok (snd x)) (do_ops (server1 ok c) 1 ops).
+Proof. intros ok c ops. apply do_ops_ok. apply server1_ok. Qed.
 Print Assumptions C19_server_ids_valid.
 
 (* For ALL sequences of prepare / finish / evict on the builder: the live build directories are pairwise
@@ -168,6 +168,30 @@ Theorem C19_job_view_independent_of_history :
 Proof. exact run_view_independent. Qed.
 Print Assumptions C19_job_view_independent_of_history.
 
+(* The launcher (bubblewrap) is the one program the server starts ON THE HOST for a job.  For ALL client
+   environments, targets, working directories and commands: the environment the launcher is started with is the
+   server's, whatever the client sent ... *)
+Theorem C19_launcher_env_independent :
+  forall senv t c env exe args t' c' env' exe' args',
+    l_env (spawn_launcher senv t c env exe args) = l_env (spawn_launcher senv t' c' env' exe' args') /\
+    l_env (spawn_launcher senv t c env exe args) = senv.
+Proof. exact launcher_env_independent. Qed.
+Print Assumptions C19_launcher_env_independent.
+
+(* ... and every client variable (those whose name holds '=' are dropped) reaches it as data behind `--setenv` *)
+Theorem C19_client_env_only_after_setenv :
+  forall t c env k v, In (k, v) (client_env env) ->
+    exists pre post, bwrap_argv t c env = pre ++ [s_setenv; k; v] ++ post.
+Proof. exact client_env_after_setenv. Qed.
+Print Assumptions C19_client_env_only_after_setenv.
+
+(* No overlay, no job: on a server whose build directory cannot carry an overlay (it lies on an overlay itself, as
+   in a container), no job ever gets a root - for ALL states, job ids and requests. *)
+Theorem C19_no_overlay_no_job :
+  forall s j r, ovl_ok s = false -> forall s' nm t1 t2, run_begin s j r <> (s', BRunning nm t1 t2).
+Proof. exact no_overlay_no_job. Qed.
+Print Assumptions C19_no_overlay_no_job.
+
 (* Docker builder: the container made from the toolchain image IS the unpacked toolchain later jobs get.  For ALL
    `docker diff` texts and ALL dockers (the second diff as any function of the paths removed): clean_container
    lets a container back into the pool only if every line of its diff is an addition (`A`) or is about /tmp -
@@ -226,6 +250,11 @@ Proof. vm_compute. reflexivity. Qed.
 
 (* the job that rewrites /bin/cc and leaves /bin/cc.orig beside it does not get its container back into the pool;
    an ordinary job's additions are removed (component-wise: /ab is not below /a) and it does *)
+(* a path ending in a blank at the end of the listing is trimmed away: rm -rf of the mangled name removes nothing,
+   and it is the second diff that keeps the container out of the pool *)
+Example ex_docker_trailing_blank :
+  clean_lines [bs "A /zzz "] = ([bs "/zzz"], false, [bs "A /zzz "]).
+Proof. vm_compute. reflexivity. Qed.
 Example ex_docker_tampered :
   clean_lines [bs "C /bin"; bs "C /bin/cc"; bs "A /bin/cc.orig"]
   = ([], false, [bs "C /bin"; bs "C /bin/cc"; bs "A /bin/cc.orig"]).
